@@ -333,6 +333,9 @@ func (e *c13Env) arrive(tid, name int) {
 		hello, closeHello := doubles.Hello(sni)
 		defer closeHello()
 		cert, err := e.cfg.GetCertificateWithContext(ctx, hello)
+		// as crypto/tls does: the per-handshake context is cancelled as soon as the handshake is over
+		// (whatever the handshake started in the background must not depend on it)
+		cancel()
 		r := &c13Result{}
 		switch {
 		case err != nil:
